@@ -114,6 +114,58 @@ theorem absent_task_result (q : List Id) (t : Id) (st : Status) (h a tl : List I
 theorem pick_is_head (s : State) (h : s.cur = none) : (step s .pick).cur = getFirst s.items := by
   simp [step, h]
 
+/-- **C05.1, duplicates** An ordinary list holds a task as often as it was added: after any history,
+adding the same task twice in a row (the same id — in particular the very same object) leaves it
+twice at the tail, and the length grows by two. -/
+theorem same_task_added_twice (ops : List QOp) (t : Id) :
+    (run (ops ++ [.addLast t, .addLast t])).items = (run ops).items ++ [some t, some t] ∧
+    (Spec.run (ops ++ [.addLast t, .addLast t])).items = (Spec.run ops).items ++ [t, t] ∧
+    (run (ops ++ [.addLast t, .addLast t])).items.length = (run ops).items.length + 2 := by
+  simp [run, Spec.run, List.foldl_append, step, Spec.step, addLast]
+
+/-- every add operation adds exactly one occurrence of its task to the ordinary list when its anchor
+is there (and `addFirst`/`addLast` always): nothing is deduplicated. -/
+theorem add_counts (q : List Id) (t : Id) :
+    (t :: q).count t = q.count t + 1 ∧ (q ++ [t]).count t = q.count t + 1 := by
+  simp [List.count_append]
+
+/-! ### A set of live queues -/
+
+theorem foldl_stepAt (ops : List (Nat × QOp)) (qs : QSet) (j : Nat) :
+    (ops.foldl stepAt qs) j = (opsOf ops j).foldl step (qs j) := by
+  induction ops generalizing qs with
+  | nil => rfl
+  | cons p ops ih =>
+    rw [List.foldl_cons, ih]
+    by_cases h : p.1 = j
+    · simp [opsOf, h, stepAt]
+    · have h' : ¬ j = p.1 := fun e => h e.symm
+      simp [opsOf, h, h', stepAt]
+
+/-- **C05.1 for a set of live queues** Every queue of a set holds exactly what it would hold had it
+run alone the operations addressed to it: an operation on one queue is not an operation on another. -/
+theorem set_queue_is_own_history (ops : List (Nat × QOp)) (j : Nat) :
+    runSet ops j = run (opsOf ops j) := by
+  simp [runSet, run, foldl_stepAt]
+
+/-- … hence each queue of the set holds the tasks of its own ordinary list, without an empty slot. -/
+theorem set_refines_lists (ops : List (Nat × QOp)) (j : Nat) :
+    (runSet ops j).items = (Spec.run (opsOf ops j)).items.map some ∧ none ∉ (runSet ops j).items := by
+  rw [set_queue_is_own_history]
+  exact ⟨(queue_refines_list _).1, no_empty_slot _⟩
+
+/-- An operation addressed to queue `k` leaves every other queue as it was. -/
+theorem other_queues_untouched (ops : List (Nat × QOp)) (k j : Nat) (op : QOp) (h : j ≠ k) :
+    runSet (ops ++ [(k, op)]) j = runSet ops j := by
+  have hk : ¬ k = j := fun e => h e.symm
+  simp [set_queue_is_own_history, opsOf, List.filter_append, hk]
+
+/-- Non-vacuity: two queues drained and refilled; each holds its own tasks. -/
+example : (runSet [(0, .addLast 1), (1, .addLast 2), (0, .removeLast), (1, .removeLast),
+    (0, .addLast 3), (1, .addLast 4), (0, .addLast 5)] 0).items = [some 3, some 5]
+    ∧ (runSet [(0, .addLast 1), (1, .addLast 2), (0, .removeLast), (1, .removeLast),
+    (0, .addLast 3), (1, .addLast 4), (0, .addLast 5)] 1).items = [some 4] := by decide
+
 /-! Non-vacuity: a concrete non-trivial history (absent id, duplicate id, worker result). -/
 example : (run [.addLast 1, .addAfter 7 2, .addLast 1, .addBefore 1 3, .pick,
     .result .success [4] [5, 6] [7]]).items = [some 4, some 5, some 6, some 1, some 1, some 7]
